@@ -1,5 +1,6 @@
 import SdJwt.Lemmas.Strip
 import SdJwt.Lemmas.Total
+import SdJwt.Lemmas.RestoreAll
 /-!
 # C08 — conformant SD-JWTs from other issuers are processed as the specification says
 
@@ -46,3 +47,37 @@ decoys only strips to the empty containers -/
 example : removeAll ((MJ.obj (.clear "a" (.arr (.decoy "d1" (.decoy "d2" .nil))) .nil) (some ["d3", "d4"])).hview (fun _ => true))
     = .obj [("a", .arr [])] := by
   rfl
+
+/-- **Interoperability (T-restore).** `T` ranges over ALL conformant structure — any `_sd` order,
+decoys at any level, recursive disclosures, any depth. Whatever order the disclosures come in, if
+the library accepts them it reconstructs exactly the specification's result: the claims with the
+marked nodes present whose own and enclosing disclosures were presented. -/
+theorem C08_interop (env : Env) (T : MJ) (strs : List String) (inv : TreeInv T)
+    (hacc : ∀ s ∈ strs, ∀ d, fromBase64 env s = .ok d → DOk T d) (c : J) (ps : List PathEntry)
+    (h : restoreAll env T.payload strs = .ok (c, ps)) :
+    removeAll c = T.project (fun g => strs.any (fun s => env.hash s = g)) := by
+  rcases restoreAll_sound env T strs inv hacc with ⟨e, he⟩ | ⟨c', ps', h', hp⟩
+  · rw [he] at h; cases h
+  · rw [h'] at h; cases h; exact hp
+
+/-- with all disclosures presented (in any order) the result is the original claims -/
+theorem C08_interop_all (env : Env) (T : MJ) (strs : List String) (inv : TreeInv T)
+    (hacc : ∀ s ∈ strs, ∀ d, fromBase64 env s = .ok d → DOk T d) (c : J) (ps : List PathEntry)
+    (h : restoreAll env T.payload strs = .ok (c, ps))
+    (hall : ∀ g ∈ T.allMarks, ∃ s ∈ strs, env.hash s = g) :
+    removeAll c = T.plain := by
+  rw [C08_interop env T strs inv hacc c ps h]
+  apply MJ.project_congr
+  intro g hg
+  obtain ⟨s, hs, e⟩ := hall g hg
+  show (strs.any fun s => decide (env.hash s = g)) = true
+  simp only [List.any_eq_true, decide_eq_true_eq]
+  exact ⟨s, hs, e⟩
+
+/-- the rounds never fail on acceptable disclosures of a conformant tree, in any order, nested
+ones before or after their enclosing ones (D4) -/
+theorem C08_rounds_total (T : MJ) (L : List Disc) (inv : TreeInv T) (hok : ∀ d ∈ L, DOk T d)
+    (hdist : Distinct L) :
+    ∃ c ps, rounds L.length T.payload L [] = .ok (c, ps) ∧
+      removeAll c = T.project (fun h => L.any (fun d => d.digest = h)) :=
+  rounds_project T L inv hok hdist
